@@ -356,16 +356,11 @@ pub fn show_value(v: &Value) -> String {
     }
 }
 
-/// expr <backend> <sexp> : `<inline-hex> <params-sql-hex> <v1,v2,...>`
+/// expr <backend> <sexp> : `<inline-hex> <params-sql-hex> <v1,v2,...> <lit1,lit2,...>`
 pub fn run(b: B, s: &S) -> String {
     let e = expr(s);
     let (inline, sql, vals) = render_select_expr(b, e);
-    format!(
-        "{} {} {}",
-        hexs(&inline),
-        hexs(&sql),
-        if vals.is_empty() { "-".to_string() } else { vals.iter().map(show_value).collect::<Vec<_>>().join(",") }
-    )
+    crate::stmts::show(b, inline, sql, Values(vals))
 }
 
 // ---------------------------------------------------------------------------------------------
